@@ -531,7 +531,11 @@ fn run_leaf_inner(
             None
         };
         let obs_before = if mon.c13 { Some(run.subject.observe()) } else { None };
-        let files_before = if mon.c13 && heavy {
+        // (under the OnDelay configurations the comparison of file contents is left out: it needs a
+        // flush by the harness, which would hide a rejected call that flushes what earlier calls left
+        // in the buffer; the trace check below still sees every write)
+        let on_delay = matches!(mon.policy, Some(PolicyCfg::DelayAltFlush | PolicyCfg::DelayAltFlush1 | PolicyCfg::DelayMod3Flush0 | PolicyCfg::DelayMod3Flush1 | PolicyCfg::DelayMod3Flush2));
+        let files_before = if mon.c13 && heavy && !on_delay {
             let _ = run.subject.log.as_mut().unwrap().persist(mrecordlog::PersistAction::Flush);
             if trace {
                 let _ = vh::trace_take();
@@ -1286,7 +1290,7 @@ pub fn c17_leaf(env: &mut Env, leaf: &Leaf, variant: usize) {
                 property: "C17".into(),
                 signature: sig,
                 what,
-                case: json!({"engine":"c17","variant": match variant { 0 => "foreign-entries", 1 => "numbering-gaps", 2 => "symlink-on-next-wal-name", _ => "non-regular-entries-on-collected-wal-names" },"seed_name":leaf.seed.name,"seed_ops":leaf.seed.ops,"ops":leaf.ops}),
+                case: json!({"engine":"c17","variant": match variant { 0 => "foreign-entries", 1 => "numbering-gaps", 2 => "symlink-on-next-wal-name", 4 => "symlink-on-wal-u64-max", _ => "non-regular-entries-on-collected-wal-names" },"seed_name":leaf.seed.name,"seed_ops":leaf.seed.ops,"ops":leaf.ops}),
             });
         }
     });
@@ -1385,7 +1389,25 @@ fn c17_inner(stats: &mut Stats, dir: &std::path::Path, target: &std::path::Path,
                 return fail("state-lost-with-numbering-gaps", format!("after renumbering the WAL files with gaps the log yields {} instead of {}", obs_summary(&obs), obs_summary(&model_obs(&run.model))));
             }
         }
-        if variant == 2 && i == seed_len {
+        if variant == 4 && i == seed_len {
+            // the numbering has reached the top of the range: with the log closed, the newest WAL
+            // file is renamed to wal-<u64::MAX - 1> (gaps are allowed), so that the next file the
+            // library wants to create is wal-<u64::MAX> - on which the symlink is then planted
+            run.subject.log = None;
+            let max = list_dir(dir).iter().filter_map(|f| wal_number(&f.0)).max().unwrap_or(0);
+            std::fs::rename(dir.join(wal_name(max)), dir.join(wal_name(u64::MAX - 1))).expect("rename");
+            match open_log(dir, PolicyCfg::Default) {
+                Ok(log) => run.subject.log = Some(log),
+                Err(e) => return fail("open-failed-with-numbering-gaps", format!("open failed on a WAL whose newest file is numbered u64::MAX - 1: {}", e)),
+            }
+            let _ = vh::trace_take();
+            let obs = run.subject.observe();
+            if obs != model_obs(&run.model) {
+                return fail("state-lost-with-numbering-gaps", format!("after renaming the newest WAL file to u64::MAX - 1 the log yields {} instead of {}", obs_summary(&obs), obs_summary(&model_obs(&run.model))));
+            }
+            stats.count("top_of_range_renumberings", 1);
+        }
+        if (variant == 2 || variant == 4) && i == seed_len {
             let next = list_dir(dir).iter().filter_map(|f| wal_number(&f.0)).max().unwrap_or(0) + 1;
             let planted = vec![(wal_name(next), Foreign::Symlink(target.to_path_buf()))];
             install_foreign(dir, &planted);
@@ -1459,7 +1481,7 @@ fn c17_inner(stats: &mut Stats, dir: &std::path::Path, target: &std::path::Path,
         if rec.events.iter().any(|e| matches!(e, Event::Open { create_new: true, is_dir: false, .. })) {
             stats.count("calls_creating_wal_files", 1);
         }
-        if let (Outcome::Err(ErrKind::Io(e)), true) = (&rec.got, variant != 2 && planted_name.is_none()) {
+        if let (Outcome::Err(ErrKind::Io(e)), true) = (&rec.got, variant != 2 && variant != 4 && planted_name.is_none()) {
             // nothing in these directories stands in the way of the library's own files: an I/O
             // error can only come from treating a foreign entry as one of them (e.g. opening a
             // sub-directory or a dangling link as a WAL file)
